@@ -236,6 +236,25 @@ fn run_case(cx: &CaseCtx, rep: &mut Report) {
 	if target == "directory" {
 		let _ = std::fs::create_dir_all(&path);
 	}
+	// the target may already exist: an older, larger version of the same tile set (same names, longer files) is
+	// written first; nothing of it may shine through afterwards
+	let refreshed = !big && !(13..=18).contains(&cx.case) && ts.tiles.len() <= 1500 && rng.chance(0.35);
+	if refreshed {
+		let mut old = ts.clone();
+		for v in old.tiles.values_mut() {
+			v.extend_from_slice(b" -- stale bytes of an older, longer version of this tile -- ");
+			v.extend(std::iter::repeat(b'#').take(200));
+		}
+		if old.tilejson.ends_with('}') {
+			old.tilejson = format!("{},\"description\":\"{}\"}}", &old.tilejson[..old.tilejson.len() - 1], "older and longer ".repeat(20));
+		}
+		let mut m = MemSource::new(&old);
+		if guard::block_on(versatiles_container::write_to_filename(&mut m, path.to_str().unwrap())).is_err() {
+			rep.inconclusive("could not write the older version of the target");
+			return;
+		}
+		rep.count(&format!("targets_refreshed_in_place_{target}"), 1);
+	}
 
 	// source: exact or widened advertised coverage; map-walk or default stream implementation
 	let widened = !big && rng.chance(0.3);
@@ -250,7 +269,7 @@ fn run_case(cx: &CaseCtx, rep: &mut Report) {
 
 	let class = format!("{target}");
 	let nontrivial = ts.tiles.len() >= 3 && (ts.crosses_block_grid() || ts.fill_ratio() < 0.5 || ts.has_duplicates() || ts.has_zoom_gap() || ts.tiles.len() > 16384 || ts.levels().iter().any(|z| *z >= 30));
-	let witness = |extra: serde_json::Value| json!({"target": target, "tileset": ts.describe(), "widened_coverage": widened, "via_blob_writer": via_blob, "detail": extra});
+	let witness = |extra: serde_json::Value| json!({"target": target, "tileset": ts.describe(), "widened_coverage": widened, "via_blob_writer": via_blob, "target_existed_before": refreshed, "detail": extra});
 
 	// ---- write
 	let mut blob_bytes: Option<Vec<u8>> = None;
